@@ -62,6 +62,7 @@ pub fn th_harness(prop: &'static str, h: crate::thworld::ThHarness) -> Harness {
             stats.max_depth = sx.max_points;
             stats.capped = sx.capped;
             stats.bound_completed = Some(sx.bound_completed);
+            stats.too_long = sx.too_long;
             stats.states = states;
             stats.outcomes = outcomes;
             stats.found = found;
